@@ -1,4 +1,5 @@
 import JugModel.Lemmas.ExecOnce
+import JugModel.Lemmas.ExecScan
 /-!
 # C13 - after a hard crash, completed work survives and the computation can be finished
 (`crash w` is enabled in every state of a live worker: between any two store operations)
@@ -67,6 +68,38 @@ theorem recovery_no_rerun (P : Prog V) (fl : Worker → Flags) (s : Sys V) (hi :
 theorem recovered_task_can_be_locked (P : Prog V) (fl : Worker → Flags) (s : Sys V) (t : Task) (w : Worker)
     (hfree : s.lock t = .free) (hidle : s.wk w = .idle) : ∃ s', accept P fl s (.lock w t true) = some s' ∧ s'.lock t = .held w := by
   simp [accept, hidle, hfree, upd]
+
+/-- **the recovery run completes the whole computation**: from any regular state in which every worker is idle, dead or
+    gone and no lock is left (what `cleanup --locks-only` re-establishes after any number of kills, by `recovery`), a
+    failure-free execute by any number of fresh workers `< W` (any interleaving; each keeps its scan obligation and leaves
+    with status 0; the dead stay dead) ends with a result for **every** task - and by `recovery_no_rerun` /
+    `C01.exec_sound` without re-running anything and with the sequential values. -/
+theorem recovery_completes (P : Prog V) (fl : Worker → Flags) (n W : Nat) (sdeps : Task → List Task)
+    (hlt : ∀ t d, d ∈ sdeps t → d < t) (s₀ s : Sys V) (evs : List (Ev V))
+    (hi : Inv s₀) (hfree : ∀ t, s₀.lock t = .free)
+    (hwk : ∀ w, s₀.wk w = .idle ∨ s₀.wk w = .crashed ∨ ∃ c, s₀.wk w = .exited c)
+    (hout : ∀ w, W ≤ w → s₀.wk w = .idle) (w₀ : Worker) (hw₀ : w₀ < W) (hidle : s₀.wk w₀ = .idle)
+    (hr : CleanSteps P fl s₀ evs s)
+    (hw : ∀ e ∈ evs, ∀ w, evWorker e = some w → w < W)
+    (hscan : scanRun n sdeps (kgOf fl) Scan.init evs = true)
+    (hq : ∀ w, w < W → (∃ c, s.wk w = .exited c) ∨ s.wk w = .crashed) :
+    ∀ t, t < n → s.res t ≠ none := by
+  have h0 := cinv_init_gen n W sdeps fl s₀ hi hfree hwk hout w₀ hw₀ hidle
+  have hc := fsteps_cinv P fl n W sdeps evs s₀ s Scan.init h0 (fsteps_of_cleanSteps P fl evs s₀ s hr) hw hscan
+  intro t ht
+  rcases complete_of_cinv n W sdeps fl hlt s _ hc hq t ht with h | h
+  · exact h
+  · have hf := scanFold_failedT_clean (V := V) sdeps (kgOf fl) evs Scan.init (cleanSteps_all_clean P fl evs s₀ s hr)
+    rw [hf] at h
+    exact absurd h (not_blocked_of_none sdeps t)
+
+/-- the state after kills and `cleanup --locks-only` meets the premises of `recovery_completes` as far as locks and the
+    invariant are concerned (the workers' states are what they are: killed ones dead, the others idle or gone) -/
+theorem recovery_state_ok (P : Prog V) (fl : Worker → Flags) (s s' : Sys V) (hi : Inv s) (hlegal : Legal s (.removeLocks : Ev V))
+    (ha : accept P fl s .removeLocks = some s') : Inv s' ∧ (∀ t, s'.lock t = .free) ∧ s'.wk = s.wk := by
+  have h := recovery P fl s s' hi hlegal ha
+  refine ⟨h.1, h.2.2, ?_⟩
+  simp only [accept, Option.some.injEq] at ha; subst ha; rfl
 
 /-! non-vacuity: worker 0 is killed inside task 0; worker 1 skips it; after lock removal worker 1 completes it; task 1's
     earlier result is untouched and not re-run -/
